@@ -161,6 +161,13 @@ type FV struct {
 	quietUpdate bool
 	batches     []*Obligation
 	reveal      []string
+	boxedFrom   map[string]boxInfo // interface terms known to hold a given concrete value
+	tparams     map[string]types.Type
+}
+
+type boxInfo struct {
+	v   Term
+	typ types.Type
 }
 
 type Kont func(*State)
@@ -281,6 +288,9 @@ func (fv *FV) bind(st *State, t Term, hint string) Term {
 	}
 	c := fv.fresh(hint, t.Sort)
 	st.assume(tEq(c, t))
+	if bi, ok := fv.boxedFrom[t.S]; ok {
+		fv.boxedFrom[c.S] = bi
+	}
 	return c
 }
 
@@ -311,7 +321,7 @@ func (fv *FV) assert(st *State, kind string, goal Term, pos token.Pos, text stri
 // ---- spec environment for the function being verified -------------------------------------
 
 func (fv *FV) specEnv(st *State, atPos token.Pos, results []Term, post bool) *SpecEnv {
-	env := &SpecEnv{reg: fv.reg, pk: fv.pk, bound: map[string]Term{}}
+	env := &SpecEnv{reg: fv.reg, pk: fv.pk, bound: map[string]Term{}, typeArgs: fv.typeParams()}
 	env.lookup = func(name string, old bool) (Term, bool) {
 		if strings.Contains(name, ".") {
 			return fv.lookupGlobal(fv.pk, name)
@@ -377,6 +387,25 @@ func (fv *FV) lookupGlobal(pk *packages.Package, name string) (Term, bool) {
 		return fv.globalVar(v), true
 	}
 	return Term{}, false
+}
+
+// typeParams: the type parameters in scope of the function under verification (receiver and function type parameters).
+func (fv *FV) typeParams() map[string]types.Type {
+	if fv.tparams != nil {
+		return fv.tparams
+	}
+	fv.tparams = map[string]types.Type{}
+	if sig, ok := fv.fc.Obj.Type().(*types.Signature); ok {
+		for _, l := range []*types.TypeParamList{sig.RecvTypeParams(), sig.TypeParams()} {
+			if l == nil {
+				continue
+			}
+			for i := 0; i < l.Len(); i++ {
+				fv.tparams[l.At(i).Obj().Name()] = l.At(i)
+			}
+		}
+	}
+	return fv.tparams
 }
 
 func (fv *FV) readVar(st *State, obj types.Object) Term {
